@@ -31,8 +31,8 @@ func runLBCB(x *X) {
 	net := newStubNet(x)
 	var bcs []config.BackendConfig
 	for i := 0; i < nb; i++ {
-		net.add(fmt.Sprintf("b%d", i), fmt.Sprintf("10.7.0.%d:80", i+1), "")
-		bcs = append(bcs, config.BackendConfig{Name: fmt.Sprintf("b%d", i), Address: fmt.Sprintf("http://10.7.0.%d:80", i+1), Weight: 1})
+		net.add(fmt.Sprintf("b%d", i), x.BackendHost(7, i+1), "")
+		bcs = append(bcs, config.BackendConfig{Name: fmt.Sprintf("b%d", i), Address: "http://" + x.BackendHost(7, i+1), Weight: 1})
 	}
 	// only configurations the validator accepts
 	probe := &config.Config{Backends: bcs, CircuitBreaker: cb}
@@ -246,7 +246,55 @@ func runLBCB(x *X) {
 	x.Sample["steps"] = steps
 
 	// ---- C08 (wired): recovery script --------------------------------------
-	if !x.dead && x.Want("C08") {
+	if !x.dead && x.Want("C08") && c.Intn(3, "recovery-with-overlapping-traffic") == 0 {
+		// the same claim with overlapping clients: every `timeout` a group of requests arrives
+		// together and every one that reaches the backend is answered 200 (after a little while)
+		mr := cb.MaxRequests
+		if mr < 1 {
+			mr = 1
+		}
+		bound := cb.SuccessThreshold + mr + 1
+		group := 2 + c.Intn(3, "overlap-group")
+		delay := []time.Duration{time.Millisecond, 30 * time.Millisecond, 400 * time.Millisecond}[c.Intn(3, "overlap-delay")]
+		var sts []int
+		served := 0
+		for round := 0; round < bound+2 && !x.dead; round++ {
+			x.Advance(timeout+time.Millisecond, onErr)
+			for k := 0; k < group; k++ {
+				cl := fmt.Sprintf("192.0.2.%d", 10+k)
+				s.Spawn("overlap", func() {
+					r := h.do(reqSpec{client: cl, plan: &reqPlan{mode: "ok", delay: delay}})
+					x.mu.Lock()
+					sts = append(sts, r.status)
+					if r.status == 200 {
+						served++
+					}
+					x.mu.Unlock()
+				})
+			}
+			if !x.RunTasks(onErr) {
+				break
+			}
+		}
+		allOK := true
+		for k := 0; k < 3 && !x.dead; k++ {
+			r, ok := doReq("ok")
+			if !ok {
+				break
+			}
+			sts = append(sts, r.status)
+			if r.status != 200 {
+				allOK = false
+			}
+		}
+		if !x.dead {
+			if !allOK {
+				x.Violate("C08", "C08/no-recovery{overlapping-traffic,accepted-config}", "with an accepted configuration (%+v) the breaker still refuses traffic after %d rounds of %d overlapping requests one timeout apart (%d served): statuses %v", cb, bound+2, group, served, sts)
+			} else {
+				x.Probe("recovered-under-overlapping-traffic")
+			}
+		}
+	} else if !x.dead && x.Want("C08") {
 		x.Advance(timeout+time.Millisecond, onErr)
 		mr := cb.MaxRequests
 		if mr < 1 {
